@@ -140,6 +140,15 @@ func (r *rw) isChan(e ast.Expr) bool {
 	_, ok = tv.Type.Underlying().(*types.Chan)
 	return ok
 }
+func (r *rw) isSlice(e ast.Expr) bool {
+	tv, ok := r.info.Types[e]
+	if !ok || tv.Type == nil {
+		return false
+	}
+	_, ok = tv.Type.Underlying().(*types.Slice)
+	return ok
+}
+
 func (r *rw) isMap(e ast.Expr) bool {
 	tv, ok := r.info.Types[e]
 	if !ok || tv.Type == nil {
@@ -240,6 +249,7 @@ func (r *rw) raceRewrite(f *ast.File) {
 	skip := map[ast.Expr]bool{}
 	mapIdx := map[*ast.IndexExpr]bool{}   // index expressions on maps (by original node)
 	mapCall := map[*ast.CallExpr]string{} // delete(m,k) / len(m) on maps
+	copyCall := map[*ast.CallExpr]bool{}  // copy(dst, src) on slices (value: src is a slice too)
 	ast.Inspect(f, func(n ast.Node) bool {
 		switch st := n.(type) {
 		case *ast.AssignStmt:
@@ -265,6 +275,9 @@ func (r *rw) raceRewrite(f *ast.File) {
 					mapCall[st] = "MapR"
 				}
 			}
+			if id, ok := st.Fun.(*ast.Ident); ok && id.Name == "copy" && len(st.Args) == 2 && r.isSlice(st.Args[0]) {
+				copyCall[st] = r.isSlice(st.Args[1])
+			}
 		}
 		return true
 	})
@@ -284,6 +297,15 @@ func (r *rw) raceRewrite(f *ast.File) {
 			if fn, ok := mapCall[n]; ok {
 				r.used = true
 				n.Args[0] = call("vsched", fn, n.Args[0], lit("map|"+r.funcOf(n)+"|"+r.pos(n)))
+				return true
+			}
+			if srcSlice, ok := copyCall[n]; ok {
+				// the contents of the destination (and source) slice are plain memory
+				r.used = true
+				n.Args[0] = call("vsched", "SliceW", n.Args[0], lit("slice contents|"+r.funcOf(n)+"|"+r.pos(n)))
+				if srcSlice {
+					n.Args[1] = call("vsched", "SliceR", n.Args[1], lit("slice contents|"+r.funcOf(n)+"|"+r.pos(n)))
+				}
 				return true
 			}
 		}
